@@ -14,13 +14,13 @@ CLIENTS = ["k1"]
 
 INVARIANTS = {
     "C16": ["TypeOK", "Exclusive", "UnfinishedIsBound", "NoStarvedWaiter"],
-    "C17": ["TypeOK", "MailboxEligible", "OneJobPerId", "CountersAddUp", "WaitPending"],
-    "C18": ["TypeOK", "Exclusive", "UnfinishedIsBound", "NoStarvedWaiter", "MailboxEligible", "OneJobPerId", "WaitPending"],
+    "C17": ["TypeOK", "MailboxEligible", "UnfinishedIsBound", "CountersAddUp", "WaitPending"],
+    "C18": ["TypeOK", "Exclusive", "UnfinishedIsBound", "NoStarvedWaiter", "MailboxEligible", "WaitPending"],
 }
 PROPERTIES = {
     "C16": ["HandOutOnce"],
-    "C17": ["NeverFinished", "FinishedNotRequeued", "EligibleChannel", "PriorityFifo", "Final", "IdempotentAdd", "WaitExact"],
-    "C18": ["HandOutOnce", "NeverFinished", "FinishedNotRequeued", "Final", "RestartKeepsLive", "RestartKeepsJobs", "NoIdReuse", "WaitExact"],
+    "C17": ["OneJobPerId", "NeverFinished", "FinishedNotRequeued", "EligibleChannel", "PriorityFifo", "Final", "IdempotentAdd", "WaitExact"],
+    "C18": ["OneJobPerId", "HandOutOnce", "NeverFinished", "FinishedNotRequeued", "Final", "RestartKeepsLive", "RestartKeepsJobs", "NoIdReuse", "WaitExact"],
 }
 ALL_INV = sorted({x for v in INVARIANTS.values() for x in v})
 ALL_PROP = sorted({x for v in PROPERTIES.values() for x in v})
@@ -89,9 +89,37 @@ def gen_priority_stress(rng, length, *, restart=False, **_):
     return ops
 
 
+def gen_id_reuse(rng, length, *, restart=False, **_):
+    """Directed profile: an id is killed / dropped / timed out and used again while clients wait,
+    workers hold the old job, and the watchdog runs - what is bound to the id afterwards?"""
+    i = rng.choice(JOBIDS[:2])
+    ch = rng.choice(CHANNELS)
+    A = lambda: {"op": "add", "id": i, "ch": ch, "prio": rng.choice([0, 1]), "tmo": rng.choice([1, 100]), "ttl": 100}
+    pool = [A, A,
+            lambda: {"op": "drop", "id": i},
+            lambda: {"op": "wait", "c": "k1", "id": i},
+            lambda: {"op": "kill", "k": "admin", "id": i},
+            lambda: {"op": "pull", "w": rng.choice(WORKERS), "chs": []},
+            lambda: {"op": "finish", "w": rng.choice(WORKERS), "id": i, "err": rng.choice(["none", "err"])},
+            lambda: {"op": "runloop"}, lambda: {"op": "runloop"},
+            lambda: {"op": "tick"},
+            lambda: {"op": "watchdog"},
+            lambda: {"op": "stats"},
+            lambda: {"op": "disconnect", "w": rng.choice(WORKERS)}]
+    if restart:
+        pool.append(lambda: {"op": "restart"})
+    ops = [A()]
+    while len(ops) < length:
+        ops.append(rng.choice(pool)())
+    return ops
+
+
 def gen_sequence(rng, length, *, restart=False, wait=False, extras=False, reconnect=True):
-    if rng.random() < 0.3:
+    r0 = rng.random()
+    if r0 < 0.3:
         return gen_priority_stress(rng, length, restart=restart)
+    if r0 < 0.4 and wait:
+        return gen_id_reuse(rng, length, restart=restart)
     """A legal operation sequence (legality judged on a light shadow of connection states; the
     shadow never decides a verdict - an illegal op would merely be rejected as machinery error)."""
     ops = []
